@@ -168,6 +168,9 @@ class BGP(protocol.Protocol):
         :param data: the data received from TCP buffer.
         """
 
+        if self.disconnected:
+            # we have already closed this connection, ignore what still arrives
+            return
         # Buffer possibly incomplete data first
         self._receive_buffer += data
         while self.parse_buffer():
